@@ -182,6 +182,29 @@ def gen_ovf(rng, doctype: str = "", lead: str = ""):
 # ----------------------------------------------------------------------------------------- VirtualBox
 
 
+def _numrefs(rng, quoted: str) -> str:
+    """Now and then spell characters of an attribute value as numeric character references (decimal or hex), as serialisers do for
+    anything outside their output encoding: the value is the same."""
+    if rng.random() > 0.3:
+        return quoted
+    q, body = quoted[0], quoted[1:-1]
+    out = []
+    i = 0
+    while i < len(body):
+        ch = body[i]
+        if ch == "&":  # keep existing references intact
+            j = body.index(";", i)
+            out.append(body[i : j + 1])
+            i = j + 1
+            continue
+        if ord(ch) > 127 or (ch.isalnum() and rng.random() < 0.1):
+            out.append(f"&#{ord(ch)};" if rng.random() < 0.5 else f"&#x{ord(ch):X};")
+        else:
+            out.append(ch)
+        i += 1
+    return q + "".join(out) + q
+
+
 def gen_vbox(rng, doctype: str = "", lead: str = ""):
     must, maybe, never = [], [], []
 
@@ -189,7 +212,7 @@ def gen_vbox(rng, doctype: str = "", lead: str = ""):
         loc = fname(rng, rng.choice([".vdi", ".vdi", ".vmdk", ".vhd"]))
         fmt = rng.choice(["VDI", "VDI", "vdi", "Vdi", "VMDK", "VHD"])
         typ = rng.choice(["Normal", "Normal", "Normal", "Immutable", "Writethrough", "Shareable", "Readonly", "MultiAttach", None]) if depth == 0 else rng.choice([None, None, "Normal"])
-        attrs = f'uuid="{{{rng.getrandbits(32):08x}-0000-4000-8000-000000000000}}" location={quoteattr(loc)} format="{fmt}"'
+        attrs = f'uuid="{{{rng.getrandbits(32):08x}-0000-4000-8000-000000000000}}" location={_numrefs(rng, quoteattr(loc))} format="{fmt}"'
         if typ is not None:
             attrs += f' type="{typ}"'
         if typ == "Normal" and fmt.lower() == "vdi":
